@@ -1,0 +1,37 @@
+//go:build verif
+// +build verif
+
+// Read-only accessors used by external verification harnesses.
+// Compiled only with the "verif" build tag.
+
+package environment
+
+import (
+	"sort"
+
+	"github.com/skx/evalfilter/v2/object"
+)
+
+// VerifScopeDepth returns the number of local scopes currently open.
+func (e *Environment) VerifScopeDepth() int {
+	return len(e.local)
+}
+
+// VerifGlobals returns a shallow copy of the global variable store.
+func (e *Environment) VerifGlobals() map[string]object.Object {
+	out := make(map[string]object.Object, len(e.global))
+	for k, v := range e.global {
+		out[k] = v
+	}
+	return out
+}
+
+// VerifFunctionNames returns the sorted names of all registered host functions.
+func (e *Environment) VerifFunctionNames() []string {
+	var out []string
+	for k := range e.functions {
+		out = append(out, k)
+	}
+	sort.Strings(out)
+	return out
+}
